@@ -306,6 +306,11 @@ class Evaluator:
             if r is not NotImplemented:
                 return r
             raise Unfoldable(f'call {ref.name}')
+        if isinstance(e.func, ast.Attribute) and d and isinstance(env.get(d), LocalFn):
+            # a method given as a bound local function under its dotted name (`self.get_span`): read-only use
+            lf = env[d]
+            self.budget -= 5
+            return run_function(lf.fdef, ([lf.bound] if lf.bound is not None else []) + args, kwargs, env=lf.scope, budget=max(0, self.budget), call_hook=self.call_hook)
         if isinstance(e.func, ast.Name) and isinstance(env.get(e.func.id), LocalFn):
             lf = env[e.func.id]
             self.budget -= 5
